@@ -403,10 +403,14 @@ def main(modname, tier, seed, replay=None, jobs=None):
     # 2. generated search
     shrink_seconds = 45 if tier == "quick" else 240
     repo = env.repo_path()
-    if tier == "thorough":
+    if tier != "thorough":
+        jobs = jobs or int(os.environ.get("VERIF_QUICK_JOBS", "4"))
+    if tier == "thorough" or jobs > 1:
+        # thorough: every worker spends the whole budget on its own seed stream; quick: the budget is split over the workers
         jobs = jobs or int(os.environ.get("VERIF_JOBS", "16"))
+        per = budget["examples"] if tier == "thorough" else -(-budget["examples"] // jobs)
         args = [
-            (modname, tier, seed * 1000 + s, budget["examples"], budget["seconds"], set(known_open), shrink_seconds, repo)
+            (modname, tier, seed * 1000 + s, per, budget["seconds"], set(known_open), shrink_seconds, repo)
             for s in range(jobs)
         ]
         ctx = mp.get_context("spawn")
